@@ -1,7 +1,8 @@
 import Mieru.Model.Validate
+import Mieru.Proofs.UrlLink
 /-! # Facts about the validators (`Mieru.Validate`) -/
 namespace Mieru.Validate
-open Mieru.Url (Binding Server Profile atoi cut isDigit)
+open Mieru.Url
 open Mieru.Base64 (Bytes)
 
 theorem firstErr_none_iff {α} (f : α → Option VErr) (l : List α) :
@@ -183,4 +184,121 @@ theorem userErr_none (v : VUser) (h : userErr v = none) :
               · have : ¬ (v.u.password.getD []).length > 64 := fun hh => h4 ⟨hp, hh⟩
                 omega
 
+theorem cut_some (sep : UInt8) : ∀ (s a c : Bytes), cut sep s = (a, some c) → s = a ++ sep :: c := by
+  intro s
+  induction s with
+  | nil => intro a c h; simp [cut] at h
+  | cons x xs ih =>
+    intro a c h
+    unfold cut at h
+    by_cases hx : x = sep
+    · rw [if_pos hx] at h
+      simp only [Prod.mk.injEq, Option.some.injEq] at h
+      obtain ⟨rfl, rfl⟩ := h
+      simp [hx]
+    · rw [if_neg hx] at h
+      simp only [Prod.mk.injEq] at h
+      obtain ⟨rfl, h2⟩ := h
+      have := ih (cut sep xs).1 c (Prod.ext rfl h2)
+      simp only [List.cons_append]
+      rw [← this]
+
+/-- what an exportable binding needs beyond validity: `port` and `portRange` not both set, and a range written
+    without leading zeros (the importer re-renders the numbers) -/
+def Exportable (b : Binding) : Prop :=
+  (b.port.getD 0 ≠ 0 → b.portRange.getD [] = []) ∧
+  ∀ a c x y, rangeMatch (b.portRange.getD []) = some (a, c) → atoi a = some x → atoi c = some y → a = itoa x ∧ c = itoa y
+
+theorem rangeMatch_some (s a c : Bytes) (h : rangeMatch s = some (a, c)) : s = a ++ 45 :: c := by
+  unfold rangeMatch at h
+  split at h
+  · rename_i a' c' hc
+    split at h
+    · simp only [Option.some.injEq, Prod.mk.injEq] at h
+      obtain ⟨rfl, rfl⟩ := h
+      exact cut_some 45 s _ _ hc
+    · cases h
+  · cases h
+
+theorem bindingOK_of_valid (b : Binding) (h : bindingErr b = none) (he : Exportable b) : BindingOK b := by
+  obtain ⟨hpr, lo, hi, hs, h1, h2, h3⟩ := bindingErr_none b h
+  refine ⟨by rcases hpr with h | h <;> rw [h] <;> decide, ?_⟩
+  unfold span at hs
+  by_cases hp : b.port.getD 0 ≠ 0
+  · rw [if_pos hp] at hs
+    simp only [Option.some.injEq, Prod.mk.injEq] at hs
+    left
+    exact ⟨he.1 hp, by omega, by omega⟩
+  · rw [if_neg hp] at hs
+    right
+    split at hs
+    · rename_i a c hm
+      split at hs
+      · rename_i x y hx hy
+        simp only [Option.some.injEq, Prod.mk.injEq] at hs
+        obtain ⟨rfl, rfl⟩ := hs
+        obtain ⟨ha, hc⟩ := he.2 a c x y hm hx hy
+        have := rangeMatch_some _ _ _ hm
+        refine ⟨x, y, ?_, h1, h2, h3⟩
+        cases hr : b.portRange with
+        | none => rw [hr] at this; simp at this
+        | some r => rw [hr] at this; simp only [Option.getD_some] at this; rw [this, ha, hc]
+      · cases hs
+    · cases hs
+
+/-- **valid ⇒ ExportOK** -/
+theorem valid_export_ok (isIP : Bytes → Bool) (v : VProfile) (s : Server)
+    (hv : profileErr isIP v = none) (hs : s ∈ v.p.servers)
+    (hpw : v.p.password.getD [] ≠ [])
+    (hmux : ∀ l, v.p.multiplexing = some (some l) → 0 ≤ l ∧ l ≤ 4)
+    (hhs : ∀ h, v.p.handshakeMode = some h → 0 ≤ h ∧ h ≤ 2)
+    (hb : ∀ b ∈ s.bindings, Exportable b) : ExportOK v.p s := by
+  unfold profileErr at hv
+  split at hv
+  · cases hv
+  · rename_i hname
+    split at hv
+    · cases hv
+    · rename_i hcred
+      split at hv
+      · cases hv
+      · split at hv
+        · cases hv
+        · split at hv
+          · cases hv
+          · rename_i hserv
+            split at hv
+            · cases hv
+            · rename_i hmtu
+              have hse := (firstErr_none_iff _ _).mp hserv s hs
+              unfold serverErr at hse
+              split at hse
+              · cases hse
+              · rename_i hhost
+                split at hse
+                · cases hse
+                · split at hse
+                  · cases hse
+                  · rename_i hne
+                    have hbs := (firstErr_none_iff _ _).mp hse
+                    have huser : v.p.userName.getD [] ≠ [] := by
+                      unfold credErr at hcred
+                      split at hcred
+                      · cases hcred
+                      · assumption
+                    refine { name := hname, user := huser, pw := hpw, host := ?_, nonempty := hne, mtu := ?_, mux := hmux, hs := hhs,
+                             bind := fun b hb' => bindingOK_of_valid b (hbs b hb') (hb b hb') }
+                    · unfold serverHost
+                      by_cases hd : s.domainName.getD [] ≠ []
+                      · rw [if_pos hd]; exact hd
+                      · rw [if_neg hd]
+                        intro hip
+                        exact hhost ⟨hip, by simpa using hd⟩
+                    · intro m hm
+                      unfold mtuErr at hmtu
+                      rw [hm] at hmtu
+                      simp only [Option.getD_some] at hmtu
+                      split at hmtu
+                      · cases hmtu
+                      · omega
 end Mieru.Validate
